@@ -92,6 +92,7 @@ def run(prog: Program, rep: Report):
     r3_guards(prog, rep, lf)
     from . import c08_shape
     c08_shape.run(prog, rep, lf)
+    r6_node_provenance(prog, rep, lf)
     oneshot_rule(prog, rep, "C08.R5", [prog.method(lf.lst, m) for m in ("__init__", "extend", "pre_extend")],
                  "a second traversal of a generator argument would link nothing while the size was already counted (or vice versa)")
 
@@ -444,3 +445,44 @@ def r3_guards(prog, rep: Report, lf: ListFacts):
                      scenario=f"DoublyLinkedList().{f.name}()")
         else:
             rep.ok("C08.R3", f, "guard", f"{client.derefs} dereferences dominated by the None test; raises IndexError")
+
+
+# ---------------------------------------------------------------------------------------------- R6
+def r6_node_provenance(prog, rep: Report, lf: ListFacts):
+    """nodes never belong to two lists: what a method links in is a node it constructed, a node parameter (the move / remove API
+    hands nodes of this list back), or something already reachable from this list"""
+    from ..util import iter_stores
+    rep.rule("C08.R6", "node provenance: a value stored into an end field of the list or a link field of a node is None, a node "
+             "constructed by the method, a parameter annotated as a node, or reached from self / such a node; never something "
+             "reached from another parameter (another list's head or tail: the two lists would share nodes)", floor=4)
+    n_ok = 0
+    for name, f in sorted(lf.lst.methods.items()):
+        if f.self_name is None:
+            continue
+        node_params = set()
+        a = f.node.args
+        for arg in a.posonlyargs + a.args + a.kwonlyargs:
+            if arg.annotation is not None and lf.node.name in ast.unparse(arg.annotation):
+                node_params.add(arg.arg)
+        foreign_params = set(f.params) - node_params - {f.self_name}
+        bad = []
+        stores = 0
+        for t, v, st in iter_stores(f.node):
+            if not (isinstance(t, ast.Attribute) and t.attr in lf.link_fields) or v is None:
+                continue
+            stores += 1
+            root = v
+            while isinstance(root, (ast.Attribute, ast.Subscript)):
+                root = root.value
+            if isinstance(root, ast.Name) and root.id in foreign_params and isinstance(v, ast.Attribute):
+                bad.append((st.lineno, f"`{src(t)} = {src(v)}` links in a node reached from the parameter `{root.id}`"))
+        if not stores:
+            continue
+        rep.fn(f)
+        if bad:
+            rep.viol("C08.R6", f, f"provenance:{name}", bad[0][1] + ": the nodes now belong to two lists",
+                     scenario="a.extend(b): b.head.prev_node is no longer None, b.append(x) shows up in a without changing len(a), "
+                              "a.pop_back() truncates b", line=bad[0][0])
+        else:
+            n_ok += 1
+            rep.ok("C08.R6", f, f"provenance:{name}", f"{stores} link stores, none from a foreign parameter")
